@@ -616,6 +616,8 @@ func growMatrix(tier string) []Cfg {
 	}
 	// call stacks of more than 65536 segments (auto-growing only: a fixed stack of that size is 50 MB per thread)
 	cs = append(cs, Cfg{CSS: 524296, Reg: 5120, Max: 0, Grow: 32, Min: true}, Cfg{CSS: 600000, Reg: 128, Max: 4096, Grow: 7, Min: true})
+	// a grow step so large that requiredSize+growBy does not fit an int: growth goes straight to the maximum
+	cs = append(cs, Cfg{CSS: 256, Reg: 128, Max: 4096, Grow: math.MaxInt64, Min: false}, Cfg{CSS: 256, Reg: 128, Max: 131072, Grow: math.MaxInt64 - 100, Min: true})
 	cs = append(cs, Cfg{CSS: 256, Reg: 200, Max: 3000, Grow: 5, Min: true}, Cfg{CSS: 256, Reg: 129, Max: 2500, Grow: 1, Min: true, Ctx: true},
 		Cfg{CSS: 256, Reg: 5120, Max: 131072, Grow: 1, Min: false}, Cfg{CSS: 256, Reg: 5120, Max: 0, Grow: 32, Min: true}, Cfg{CSS: 256, Reg: 2048, Max: 0, Grow: 0, Min: false})
 	return cs
@@ -793,8 +795,9 @@ var limitProgs = []limitProg{
 	// the registry fills exactly while a Go function called without arguments is the current frame of a
 	// coroutine.create/resume coroutine (its LocalBase is the limit; pushing its result overflows): hunt2 obs-1
 	{name: "deep-regs-gofn-resume", kind: "reg", co: true, want: func(n int) int { return n },
-		src: `local function rec(n) local a, b, c, d, e, f, g, h = 1, 2, 3, 4, 5, 6, 7, 8 mark() if n == 0 then return 0 end return 1 + rec(n - 1) + (a - a) end
-		      local co = coroutine.create(function() return rec(N) end)
+		src: `-- mark() is called from the top-most register of rec's frame: its own frame starts where rec's ends
+		      local function rec(n, t) local a, b, c, d, e, f, g, h = 1, 2, 3, 4, 5, 6, 7, 8 if n == 0 then return t end return rec(n - 1, mark()) + 1 + (a - a) end
+		      local co = coroutine.create(function() return rec(N, 0) end)
 		      local ok, v = coroutine.resume(co)
 		      if coroutine.running() ~= nil then return false, "main thread is not running" end
 		      if coroutine.status(co) ~= "dead" then return false, "status " .. coroutine.status(co) end
